@@ -361,9 +361,26 @@ func init() {
 			}
 			return SStr{in.fromTerm(in.tm.Bin("bvadd", v, in.tm.Const('0', 8)), types.Typ[types.Uint8])}
 		},
+		// decimal rendering of a symbolic number is enumerative: concretize (bounded by MaxShape)
+		"strconv.Itoa":       concArg0,
+		"strconv.FormatInt":  concArg0,
+		"strconv.FormatUint": concArg0,
 		"os.Getenv": func(in *Interp, fn *ssa.Function, args []Value, _ *frame) Value { return SStr(nil) },
 	}
 	delete(intrTable, "sort.SliceStable")
+}
+
+// concArg0 concretizes a symbolic first argument, then runs the real function.
+func concArg0(in *Interp, fn *ssa.Function, args []Value, caller *frame) Value {
+	if _, ok := args[0].(*Term); ok {
+		args = append([]Value(nil), args...)
+		args[0] = in.concretize(args[0], fn.Signature.Params().At(0).Type())
+	}
+	fr := &frame{fn: fn, env: make(map[ssa.Value]Value, 16), caller: caller}
+	for i, p := range fn.Params {
+		fr.env[p] = args[i]
+	}
+	return in.run(fr)
 }
 
 // errorsIs is the documented errors.Is algorithm (==, Is method, Unwrap chain).
